@@ -11,11 +11,32 @@ def keyfn(case, res, m):
 
 def run(chk):
     chk.audit(PROPS)
-    n = 1800 if chk.tier == 'quick' else 120000
     corpus = scen_tee.boundary_cases()
-    core.e1_flow(chk, 'scen_tee', 'tee', {'C10'},
-                 lambda rng: scen_tee.gen_case(rng, chk.tier, rng.choice(['', 'wedge', 'wedge', 'fail'])),
-                 n, keyfn=keyfn, corpus=corpus, escalate_n=1500)
+    gen = lambda rng: scen_tee.gen_case(rng, chk.tier, rng.choice(['', 'wedge', 'wedge', 'fail']))  # noqa: E731
+    kinds, ahead, spins = {}, {}, 0
+
+    def stats(results):
+        nonlocal spins
+        for case, res in results:
+            for e in res.get('events', []):
+                kinds[e[0]] = kinds.get(e[0], 0) + 1
+                if e[0] == 'acq' and e[2] == 0:
+                    spins += 1
+            k = f"bs+{res.get('max_ahead', 0) - case['bs']}"
+            ahead[k] = ahead.get(k, 0) + 1
+
+    if chk.tier == 'quick':
+        stats(core.e1_flow(chk, 'scen_tee', 'tee', {'C10'}, gen, 1200, keyfn=keyfn, corpus=corpus, escalate_n=1500))
+    else:
+        # batches keep the memory of the recorded traces bounded
+        for b in range(20):
+            stats(core.e1_flow(chk, 'scen_tee', 'tee', {'C10'}, gen, 3000, keyfn=keyfn,
+                               corpus=corpus if b == 0 else None, escalate_n=3000))
+            if chk.violations or chk.corr_breaks:
+                break
+    chk.cov['distribution'] = dict(
+        model_actions_exercised=dict(sorted(kinds.items())), timed_out_acquires=spins,
+        max_lookahead_relative_to_buffer_size=dict(sorted(ahead.items())))
     chk.cov['rule'] = (
         'cases = fixed boundary corpus (2/3 forks x window 2/3 x lengths 0,1,window,window+3 x source ending '
         'clean/exception/StopRequested x 3 schedules) + random (forks 2-3 [thorough 2-4], buffer_size 2-3 [2-5], '
